@@ -387,10 +387,11 @@ class CFG:
         r = self.reachable([self.entry], avoid=guards)
         return target.id not in r
 
-    def must_follow(self, src, followers, normal_only=True):
+    def must_follow(self, src, followers, normal_only=True, use_x=True):
         """True iff every path from src to the normal exit passes through a node in `followers`
-        (paths ending in a throw satisfy the obligation when normal_only)."""
-        r = self.reachable([src], avoid=followers)
+        (paths ending in a throw satisfy the obligation when normal_only).  use_x=False ignores paths that enter a
+        catch handler (for obligations that only concern executions in which nothing was thrown)."""
+        r = self.reachable([src], avoid=followers, use_x=use_x)
         if self.exit.id in r:
             return False
         if not normal_only and self.throwexit.id in r:
